@@ -176,6 +176,57 @@ func runProperty(spec *PropSpec, tier string, seed, workers int) int {
 	if world != nil {
 		for hi, h := range hs {
 			h.QueryLog = filepath.Join(scratch(), fmt.Sprintf("qlog-%d.smt2", hi))
+			// every new kind of candidate violation is replayed natively while the exploration continues; the
+			// first one that reproduces and is not a known finding ends the exploration of this harness early
+			// (a changed tree can have vastly more paths than the unchanged one)
+			type rres struct{ res, out string }
+			var rmu sync.Mutex
+			replayed := map[string]rres{}
+			hh := h
+			replayOf := func(f *Finding, maxThreads int) (string, string) {
+				k := findingKey(f)
+				rmu.Lock()
+				if r, ok := replayed[k]; ok {
+					rmu.Unlock()
+					return r.res, r.out
+				}
+				rmu.Unlock()
+				tp := tapeOf(hh, f)
+				tp.Prop = spec.ID
+				attempts := 1
+				if maxThreads > 1 || f.Kind != "assert" {
+					attempts = 3
+				}
+				if hh.ReplayAttempts > 0 {
+					attempts = hh.ReplayAttempts
+				}
+				var res, out string
+				if f.Kind == "race" {
+					res, out = "reproduced", "(data race reported by the executor's happens-before detector; no native confirmation possible)"
+					if !hh.TrustRace {
+						res = "not-reproduced(race)"
+					}
+				} else {
+					res, out = replayTape(tp, attempts)
+				}
+				rmu.Lock()
+				replayed[k] = rres{res, out}
+				rmu.Unlock()
+				return res, out
+			}
+			h.OnNewFinding = func(f *Finding) bool {
+				res, _ := replayOf(f, 2)
+				if res != "reproduced" {
+					return false
+				}
+				lbl := findingLabel(hh, f)
+				for k := range known {
+					if known[k].Status == "known" && known[k].Prop == spec.ID && known[k].Label == lbl {
+						return false
+					}
+				}
+				return true
+			}
 			st, err := explore(world, h, workers)
 			if err == nil {
 				budget := 25 * time.Second
@@ -240,6 +291,9 @@ func runProperty(spec *PropSpec, tier string, seed, workers int) int {
 			if st.Truncated {
 				inconclusive = append(inconclusive, fmt.Sprintf("%s: exploration truncated by path/time limit (reduced bound)", h.Name))
 			}
+			if st.StoppedOnViolation {
+				say("exploration of %s stopped early: a reproduced violation that is not a known finding was found", h.Name)
+			}
 			if n := sumMap(st.Unwound); n > 0 {
 				inconclusive = append(inconclusive, fmt.Sprintf("%s: %d paths left the stated bound (unwinding)", h.Name, n))
 			}
@@ -250,32 +304,8 @@ func runProperty(spec *PropSpec, tier string, seed, workers int) int {
 				f := &st.Findings[i]
 				tp := tapeOf(h, f)
 				tp.Prop = spec.ID
-				attempts := 1
-				if st.MaxThreads > 1 || f.Kind != "assert" {
-					attempts = 3
-				}
-				if h.ReplayAttempts > 0 {
-					attempts = h.ReplayAttempts
-				}
-				var res, out string
-				if f.Kind == "race" {
-					res, out = "reproduced", "(data race reported by the executor's happens-before detector; no native confirmation possible)"
-					if !h.TrustRace {
-						res = "not-reproduced(race)"
-					}
-				} else {
-					res, out = replayTape(tp, attempts)
-				}
-				lbl := f.Label
-				if f.Kind != "assert" {
-					lbl = f.Kind + ":" + f.Label
-					if f.Kind == "panic" {
-						lbl = "panic-escaped[" + h.Func + "]"
-					}
-					if f.Kind == "deadlock" {
-						lbl = "deadlock[" + h.Func + "]"
-					}
-				}
+				res, out := replayOf(f, st.MaxThreads)
+				lbl := findingLabel(h, f)
 				if res != "reproduced" {
 					msg := fmt.Sprintf("UNCONFIRMED-CEX property=%s harness=%s label=%s native=%s", spec.ID, h.Func, lbl, res)
 					say("%s", msg)
@@ -476,4 +506,19 @@ func cmdSelftest(args []string) int {
 	}
 	fmt.Println("selftest ok:", solverVersion())
 	return 0
+}
+
+// findingLabel is the label under which a finding is reported and matched against KNOWN_FINDINGS.txt.
+func findingLabel(h HarnessSpec, f *Finding) string {
+	lbl := f.Label
+	if f.Kind != "assert" {
+		lbl = f.Kind + ":" + f.Label
+		if f.Kind == "panic" {
+			lbl = "panic-escaped[" + h.Func + "]"
+		}
+		if f.Kind == "deadlock" {
+			lbl = "deadlock[" + h.Func + "]"
+		}
+	}
+	return lbl
 }
